@@ -47,6 +47,9 @@ func cleanOracle(cf config, o *obs) run.Outcome {
 	fail := func(key, format string, a ...any) run.Outcome {
 		out.Violation = fmt.Sprintf("config=%s point=%s: ", cf.Name, o.Point) + fmt.Sprintf(format, a...)
 		out.Key = key + ":" + side
+		if o.Point.NewAddr {
+			out.Key += ":new-address"
+		}
 		out.Class = "VIOLATION " + key
 		out.NonTrivial = true
 		return out
@@ -151,6 +154,13 @@ func cleanOracle(cf config, o *obs) run.Outcome {
 		}
 	}
 	out.Class = fmt.Sprintf("resumed-ok %s cid%d/%d infl=%s", side, len(o.XCID), len(o.PeerCID), o.Point.Infl)
+	if o.Point.NewAddr {
+		if o.Migratable {
+			out.Class += " newaddr:peer-follows"
+		} else {
+			out.Class += " newaddr:peer-cannot-follow(X>P only)"
+		}
+	}
 	out.Counters[fmt.Sprintf("first_seq_after_resume=%d", first)]++
 	return out
 }
